@@ -82,6 +82,10 @@ pub struct ExecCfg {
     /// a panic that escapes a task spawned by the library ends that task only (what a tokio runtime does);
     /// by default such a panic abandons the execution and is reported
     pub tolerate_lib_panics: bool,
+    /// a task that is preempted at one of its own decision points (the default was to let it run on) stays
+    /// parked until no other task can run at the current virtual time: one deviation then means "everything else
+    /// that is pending happens inside this window", which otherwise takes one deviation per step of every other task
+    pub park_preempted: bool,
 }
 
 impl Default for ExecCfg {
@@ -100,6 +104,7 @@ impl Default for ExecCfg {
             keep_trace: true,
             por: false,
             tolerate_lib_panics: false,
+            park_preempted: false,
         }
     }
 }
@@ -173,6 +178,7 @@ struct Exec {
     /// the harness switched schedule exploration off for a phase (defaults are taken, nothing recorded)
     no_explore: bool,
     contended_streak: usize,
+    parked: Vec<usize>,
     in_spawn: bool,
     /// forced hand-off (no decision recorded): run the newest task / this task next
     force_next: Option<Force>,
@@ -331,23 +337,37 @@ impl Exec {
         } else {
             self.contended_streak = 0;
         }
-        let eligible = |t: usize| Some(t) != clock && Some(t) != quiescer;
         let mut order: Vec<usize> = Vec::with_capacity(ids.len());
-        if let Some(c) = cur {
-            if !contended && !yielded && eligible(c) {
-                order.push(c);
-            }
+        self.parked.retain(|t| ids.contains(t));
+        if contended {
+            // a parked task may hold what the contended one waits for
+            self.parked.clear();
         }
-        for t in &self.queue {
-            if Some(*t) != cur && eligible(*t) {
-                order.push(*t);
+        loop {
+            let parked = &self.parked;
+            let eligible = |t: usize| Some(t) != clock && Some(t) != quiescer && !parked.contains(&t);
+            if let Some(c) = cur {
+                if !contended && !yielded && eligible(c) {
+                    order.push(c);
+                }
             }
-        }
-        if let Some(c) = cur {
-            // a task that yielded voluntarily goes to the back of the line (it stays an alternative)
-            if yielded && !contended && eligible(c) {
-                order.push(c);
+            for t in &self.queue {
+                if Some(*t) != cur && eligible(*t) {
+                    order.push(*t);
+                }
             }
+            if let Some(c) = cur {
+                // a task that yielded voluntarily goes to the back of the line (it stays an alternative)
+                if yielded && !contended && eligible(c) {
+                    order.push(c);
+                }
+            }
+            // parked tasks (preempted ones, see `park_preempted`) come back when nothing else can run
+            if order.is_empty() && !self.parked.is_empty() {
+                self.parked.clear();
+                continue;
+            }
+            break;
         }
         if contended {
             let c = cur.expect("contended without a current task");
@@ -466,6 +486,9 @@ impl Exec {
                     0
                 };
                 let who = alts[c];
+                if self.cfg.park_preempted && c != 0 && cur == Some(alts[0]) && !contended && !yielded && !self.in_spawn {
+                    self.parked.push(alts[0]);
+                }
                 if idx < self.prefix.len() && self.prefix[idx].who != who as u32 && self.prefix[idx].who != u32::MAX - 1 {
                     self.divergence = Some(format!(
                         "decision {idx}: task {} chosen while replaying, {} recorded",
@@ -1388,6 +1411,7 @@ fn setup_exec(req: Req) {
             yielded: false,
             no_explore: false,
             contended_streak: 0,
+            parked: Vec::new(),
             in_spawn: false,
             force_next: None,
             pending: Vec::new(),
